@@ -18,13 +18,15 @@ use vtokio::sync::{mpsc, oneshot};
 pub const ALPHA: &[&str] = &["a", "\u{e9}", "\u{2028}", "\u{1f600}", "\r", "\n", ";"];
 pub const REPLS: &[&str] = &["", "a", "\u{1f600}", "\n", "\r\n"];
 
-fn to_event(c: &Change) -> TextDocumentContentChangeEvent {
+/// `range_length`: the deprecated LSP field (length of the replaced range in UTF-16 code
+/// units); clients may still send it, the range alone is authoritative
+fn to_event(c: &Change, range_length: Option<u32>) -> TextDocumentContentChangeEvent {
     TextDocumentContentChangeEvent {
         range: c.range.map(|(l1, c1, l2, c2)| Range {
             start: Position { line: l1, character: c1 },
             end: Position { line: l2, character: c2 },
         }),
-        range_length: None,
+        range_length,
         text: c.text.clone(),
     }
 }
@@ -33,8 +35,30 @@ fn to_event(c: &Change) -> TextDocumentContentChangeEvent {
 /// and returns the server's text after every batch (None = document unknown to the server).
 pub fn server_texts(initial: &str, batches: &[Vec<Change>]) -> Result<Vec<Option<String>>, String> {
     let uri = Url::parse(URI).unwrap();
-    let batches: Vec<Vec<TextDocumentContentChangeEvent>> =
-        batches.iter().map(|b| b.iter().map(to_event).collect()).collect();
+    // every second ranged event carries the (correct) rangeLength of the client's text
+    let mut cur = initial.to_string();
+    let mut n = 0usize;
+    let batches: Vec<Vec<TextDocumentContentChangeEvent>> = batches
+        .iter()
+        .map(|b| {
+            b.iter()
+                .map(|c| {
+                    n += 1;
+                    let len = match c.range {
+                        Some((l1, c1, l2, c2)) if n % 2 == 0 => match (lsptext::offset(&cur, l1, c1), lsptext::offset(&cur, l2, c2)) {
+                            (Some(a), Some(b)) if a <= b => Some(lsptext::utf16_len(&cur[a..b])),
+                            _ => None,
+                        },
+                        _ => None,
+                    };
+                    if let Some(t) = lsptext::apply(&cur, c) {
+                        cur = t;
+                    }
+                    to_event(c, len)
+                })
+                .collect()
+        })
+        .collect();
     let initial = initial.to_string();
     guarded(move || {
         vtokio::verif::set_controlled(false);
